@@ -69,7 +69,7 @@ CHECKS.update({
    design_ref="DESIGN.md §6.1", note=PROOF_NOTE,
    technique="Lean 4 theorems (mutual structural induction over CSTs) about hand-written ports + differential correspondence + metamorphic oracle"),
  "C02": dict(category="proof",
-   text="Proved for every rewrite tree about the printer port: printing a relation succeeds iff the tree is DSL-expressible in a path-based, code-independent sense (no unset userset; no direct assignment, or exactly one reachable from the root through first operands / exclusion bases, where any direct child of a union/intersection counts because it is hoisted) - print_ok_iff_expressible; every failure is the unsupported-nesting error for that type and relation - print_error_is_nesting; IsRelationAssignable holds iff the printer's direct-assignment counter is positive and the counter equals the number of direct assignments - assignable_iff_counted; hoisting is a permutation - hoist_is_permutation. The port is tied to the real printer on ALL rewrite trees with <= 7 nodes (exhaustive) plus random deep models. 'Parsing the produced DSL gives back the input up to the four normalisations' is executed by the oracle (needs the real parser), not proved. Two open findings on degenerate inputs (empty operator, direct assignment without restrictions) are witnessed by kernel-checked examples.",
+   text="Proved for every rewrite tree about the printer port: printing a relation succeeds iff the tree is DSL-expressible in a path-based, code-independent sense (no unset userset and no operator without operands; no direct assignment, or exactly one reachable from the root through first operands / exclusion bases, where any direct child of a union/intersection counts because it is hoisted) - print_ok_iff_expressible; every failure is the unsupported-nesting error for that type and relation - print_error_is_nesting; IsRelationAssignable holds iff the printer's direct-assignment counter is positive and the counter equals the number of direct assignments - assignable_iff_counted; hoisting is a permutation - hoist_is_permutation. The port is tied to the real printer on ALL rewrite trees with <= 7 nodes (exhaustive) plus random deep models. 'Parsing the produced DSL gives back the input up to the four normalisations' is executed by the oracle (needs the real parser), not proved. An operator without operands counts as inexpressible (repaired defect: it used to be printed as an empty operand list); one open finding on degenerate input (a direct assignment without restrictions is printed as '[]') is witnessed by a kernel-checked example.",
    design_ref="DESIGN.md §6.2", note=PROOF_NOTE,
    technique="Lean 4 theorems about a hand-written port + exhaustive small-scope correspondence vs the real printer"),
  "C03": dict(category="proof",
